@@ -628,6 +628,27 @@ func (e *explorer) check(si *sinfo, oi int) {
 	}
 	class(changed)
 
+	// collided: the project that vanished was to be written as a NEW requirement under the
+	// same derived name (declared name, else last path element) as another new requirement
+	// that is there: the two new names were not distinct and one entry overwrote the other.
+	collided := func(lost string) (string, bool) {
+		if _, was := si.s.hasPath(lost); was {
+			return "", false
+		}
+		dn := e.w.ProjectName(Req{lost, old[lost]})
+		if dn == "" {
+			dn = natName(lost)
+		} else if _, major := mvsfake.SplitMajor(lost); major != "" {
+			dn += "@" + major
+		}
+		for n, r := range ni.s {
+			if _, was := si.s.hasPath(r.Path); !was && r.Path != lost && n == dn {
+				return fmt.Sprintf("; %s and %s are both new requirements that derive the name %q, only one entry was written", lost, r.Path, dn), true
+			}
+		}
+		return "", false
+	}
+	lostPath := ""
 	lowered := func(except string) string {
 		var ks []string
 		for p := range old {
@@ -640,6 +661,7 @@ func (e *explorer) check(si *sinfo, oi int) {
 			}
 			v, ok := nw[p]
 			if !ok {
+				lostPath = p
 				return fmt.Sprintf("%s (was %s) is no longer in the build list", p, old[p])
 			}
 			if semver.Compare(v, old[p]) < 0 {
@@ -651,11 +673,25 @@ func (e *explorer) check(si *sinfo, oi int) {
 	switch tr.kind {
 	case "tidy":
 		if d := cmpList(old, nw); d != "" {
-			viol("C11:tidy:build-list-changed", "build list after Tidy differs: "+d, nil)
+			why, ok := "", false
+			for p := range old {
+				if _, has := nw[p]; !has && !ok {
+					why, ok = collided(p)
+				}
+			}
+			if ok {
+				viol("C11:names:new-names-collide", "build list after Tidy differs: "+d+why, nil)
+			} else {
+				viol("C11:tidy:build-list-changed", "build list after Tidy differs: "+d, nil)
+			}
 		}
 	case "upgrade-all":
 		if d := lowered(""); d != "" {
-			viol("C11:upgrade-all:lowers-project", d, nil)
+			if why, ok := collided(lostPath); ok && lostPath != "" {
+				viol("C11:names:new-names-collide", d+why, nil)
+			} else {
+				viol("C11:upgrade-all:lowers-project", d, nil)
+			}
 		} else {
 			var ks []string
 			for p := range old {
@@ -695,7 +731,11 @@ func (e *explorer) check(si *sinfo, oi int) {
 				viol("C11:"+tr.kind+":resolved-version-not-selected", fmt.Sprintf("%s is at %s; the query stands for %s", p, got, v), nil)
 			default:
 				if d := lowered(p); d != "" {
-					viol("C11:"+tr.kind+":lowers-other-project", d, nil)
+					if why, ok := collided(lostPath); ok && lostPath != "" {
+						viol("C11:names:new-names-collide", d+why, nil)
+					} else {
+						viol("C11:"+tr.kind+":lowers-other-project", d, nil)
+					}
 				}
 			}
 		}
@@ -823,16 +863,25 @@ func initialStates(f *fam) []state {
 	for i, p := range f.paths {
 		idx[p] = i
 	}
+	// a name already taken gets the suffix -1, -2, ... (projects may share their last path element)
+	put := func(s state, name string, r Req) {
+		for n, k := name, 1; ; n, k = fmt.Sprintf("%s-%d", name, k), k+1 {
+			if _, taken := s[n]; !taken {
+				s[n] = r
+				return
+			}
+		}
+	}
 	for _, roots := range f.rootSets {
 		s := state{}
 		for _, r := range roots {
-			s[natName(r.Path)] = r
+			put(s, natName(r.Path), r)
 		}
 		out = append(out, s)
 		if f.rotated && len(roots) > 0 {
 			s2 := state{}
 			for _, r := range roots {
-				s2[natName(f.paths[(idx[r.Path]+1)%len(f.paths)])] = r
+				put(s2, natName(f.paths[(idx[r.Path]+1)%len(f.paths)]), r)
 			}
 			out = append(out, s2)
 		}
@@ -881,6 +930,19 @@ func main() {
 	if r.Thorough() {
 		fams = append(fams, generic(&mvsfake.Family{Name: "3x3 a,b(v1.0.0 v1.1.0 v1.2.0)", Addr: "example.com",
 			Projects: []mvsfake.ProjectDef{{Dir: "a", Versions: []string{"v1.0.0", "v1.1.0", "v1.2.0"}}, {Dir: "b", Versions: []string{"v1.0.0", "v1.1.0", "v1.2.0"}}}}, 2, true, false, depth))
+	}
+	// two projects whose derived requirement name is the same (same last path element under
+	// different prefixes; same declared name), required by some versions of a third project:
+	// one operation then has to write two NEW direct requirements at once
+	top := two("top", "v1.0.0", "v1.1.0")
+	fams = append(fams,
+		generic(&mvsfake.Family{Name: "colliding new names: top(2), left/util, right/util", Addr: "example.com",
+			Projects: []mvsfake.ProjectDef{top, one("left/util", "v1.0.0"), one("right/util", "v1.0.0")}}, 1, false, true, depth),
+		generic(&mvsfake.Family{Name: "colliding new names: top(2), p and q both declare the name common", Addr: "example.com",
+			Projects: []mvsfake.ProjectDef{top, named(one("p", "v1.0.0"), "common"), named(one("q", "v1.0.0"), "common")}}, 1, false, false, depth))
+	if r.Thorough() {
+		fams = append(fams, generic(&mvsfake.Family{Name: "colliding new names: top(2), left/util(2), right/util, one repository per project", Addr: "example.com", Split: true,
+			Projects: []mvsfake.ProjectDef{top, two("left/util", "v1.0.0", "v1.1.0"), one("right/util", "v1.0.0")}}, 1, false, false, depth))
 	}
 	bigLevel, bigRefs := 0, false
 	if r.Thorough() {
